@@ -68,6 +68,9 @@ def _exec_sites(repo):
 def contracts():
     cs = []
     cs.append(Equiv('cli.glom_cli', 'ref_cli.glom_cli_ref', args={'target': 'ref', 'spec': 'ref', 'indent': 'int', 'debug': 'bool', 'inspect': 'bool', 'scalar': 'bool'}))
+    # the flag table: format names reach the middleware exactly as typed (a flag parser that rewrites them changes which branch runs)
+    cs.append(Equiv('cli.get_command', 'ref_cli.get_command_ref', args={}))
+    cs.append(Equiv('cli.main', 'ref_cli.main_ref', args={'argv': 'ref'}, config=lambda cfg: cfg.summaries.update({'cli.get_command': 'get_command'})))
     cs.append(Equiv('cli.mw_handle_target', 'ref_cli.handle_target_ref', config=_nosum('cli.mw_handle_target'), args={'target_text': 'ref', 'target_format': 'str'}))
     # mw_get_target: path-wise symbolic execution of this function does not finish in the quick budget (thousands of paths through opaque
     # library calls with string conditions), so its relational contract is NOT claimed as proved; the no-exec clause is decided by the
@@ -263,10 +266,11 @@ ASSUMPTIONS = [
 ]
 TRUSTED = ['reference semantics contracts/ref_cli.py']
 EXPLANATION = ('glom_cli (what is printed and returned for success / GlomError, indent, sort_keys, --scalar) and mw_handle_target (loader per format, every loader error a usage error) '
-               'are proved equal to reference semantics; eval/exec/compile occur only in _compile_code, reached only through _eval_python_full_spec, whose only call is guarded by the python-full format.')
+               'are proved equal to reference semantics; eval/exec/compile occur only in _compile_code, reached only through _eval_python_full_spec, whose only call is guarded by the python-full format; get_command (flag table) and main are proved equal to their references.')
 CANARIES = [
     {'name': 'glom_cli: sort_keys dropped', 'module': 'cli', 'only': ['cli.glom_cli'], 'expect': ['cli.glom_cli'],
      'old': "print(json.dumps(result, indent=indent, sort_keys=True))", 'new': "print(json.dumps(result, indent=indent))"},
     {'name': 'handle_target: loader error returned as result', 'module': 'cli', 'only': ['cli.mw_handle_target'], 'expect': ['cli.mw_handle_target'],
      'old': "        raise UsageError('could not load target data, got: %s: %s'\n                         % (e.__class__.__name__, e))", 'new': "        return {}"},
+    {'name': 'get_command: spec format lower-cased by the flag parser', 'module': 'cli', 'only': ['cli.get_command'], 'expect': ['cli.get_command'], 'old': "    cmd.add('--spec-format', str, missing='python',", 'new': "    cmd.add('--spec-format', str.lower, missing='python',"},
 ]
